@@ -1843,8 +1843,12 @@ class SSHConnection(SSHPacketHandler, asyncio.Protocol):
 
         self.logger.info('Sending disconnect: %s (%d)', reason, code)
 
-        self.send_packet(MSG_DISCONNECT, UInt32(code),
-                         String(reason), String(lang))
+        try:
+            self.send_packet(MSG_DISCONNECT, UInt32(code),
+                             String(reason), String(lang))
+        except DisconnectError:
+            # The disconnect can't be sent; the caller still closes
+            pass
 
     def _send_kexinit(self) -> None:
         """Start a key exchange"""
